@@ -49,7 +49,13 @@ pub struct SpySet {
 impl ScancodeSet for SpySet {
     fn advance_state(&mut self, code: u8) -> Result<Option<KeyEvent>, Error> {
         self.seen.borrow_mut().push(code);
-        self.inner.advance_state(code)
+        let r = self.inner.advance_state(code);
+        // a user-supplied set may answer with any error kind: this one reports the keyboard's
+        // RESEND request (FE) as a parity error; Keyboard must hand that back unchanged
+        if code == 0xFE && r.is_err() {
+            return Err(Error::ParityError);
+        }
+        r
     }
 }
 
@@ -215,6 +221,13 @@ impl KeyboardLayout for DynLayout {
                 let answer = match l.counter % 7 {
                     5 => DecodedKey::RawKey(crate::keys::ALL_KEYS[(l.counter as usize / 7 * 5 + 3) % crate::keys::NKEYS]),
                     6 => DecodedKey::Unicode(b"abcxyzABCXYZ0189 mM"[(l.counter as usize / 7) % 19] as char),
+                    // ... a character from some script block or other
+                    3 if (l.counter / 7) % 2 == 1 => {
+                        const BLOCKS: [u32; 16] = [0x00A0, 0x0100, 0x0370, 0x0400, 0x0530, 0x05D0, 0x0600, 0x0900, 0x0E00, 0x3040, 0x4E00, 0xAC00, 0x2000, 0x2190, 0x1F600, 0xE0100];
+                        let c = l.counter as u32 / 14;
+                        let cp = BLOCKS[(c % 16) as usize] + (c / 16 * 37) % 0x80;
+                        DecodedKey::Unicode(char::from_u32(cp).unwrap_or('\u{3a9}'))
+                    }
                     // ... or anything else a char can be: NUL, C0 controls, DEL, combining marks
                     // (dead keys), Latin-1, the ends of the code space
                     4 => DecodedKey::Unicode(
